@@ -39,6 +39,9 @@ type Options struct {
 	CheckPosts  bool // prove the target's ensures clauses at every return
 	NoAlias     bool // generated C08 obligation: results do not alias parameters
 	ZeroRecv    bool // receiver is the zero value of its type (C20)
+	MethodsOnSuccess bool // C04: run every exported method on the value returned without error
+	MethodsOnError   bool // C20: run every exported argument-free method on the value returned with an error
+	ViaContract      bool // do not execute the target's body: havoc its results and assume its own contract (method harness)
 	ExtraPost   func(u *Unit, st *State, params []Val, res Val)
 }
 
@@ -208,7 +211,14 @@ func VerifyFunc(p *Program, fn *ssa.Function, cfg Config, opt Options) (res *Uni
 			name = fmt.Sprintf("p%d", i)
 		}
 		if opt.ZeroRecv && i == 0 && fn.Signature.Recv() != nil {
-			params = append(params, u.zeroVal(prm.Type()))
+			if pt, ok := prm.Type().Underlying().(*types.Pointer); ok {
+				// pointer receiver: a pointer to the zero value
+				c := u.newCell(pt.Elem(), false, true, "zero")
+				st.cells[c.ID] = u.zeroVal(pt.Elem())
+				params = append(params, PtrV{Nil: TFalse, Cell: c, Elem: pt.Elem()})
+			} else {
+				params = append(params, u.zeroVal(prm.Type()))
+			}
 			continue
 		}
 		params = append(params, u.freshVal(st, prm.Type(), name, true))
@@ -227,7 +237,47 @@ func VerifyFunc(p *Program, fn *ssa.Function, cfg Config, opt Options) (res *Uni
 	if ct != nil && ct.Modifies == "nothing" {
 		u.Cfg.FrameCheck = true
 	}
-	u.runFunc(st, fn, params, nil, 0, func(st2 *State, r Val) {
+	run := func(k Kont) { u.runFunc(st, fn, params, nil, 0, k) }
+	if opt.ViaContract && ct != nil {
+		// modular harness: the value is whatever the contract allows
+		run = func(k Kont) {
+			u.curFn = append(u.curFn, fn)
+			base := Add(st.wm, IntLit(int64(st.nalloc)))
+			res := u.havocResult(st, fn.Signature.Results(), "ret_"+fn.Name())
+			u.bumpWatermark(st)
+			var all []Val
+			all = append(all, params...)
+			switch r := res.(type) {
+			case nil:
+			case TupleV:
+				all = append(all, r.E...)
+			default:
+				all = append(all, r)
+			}
+			epoch := len(st.order)
+			u.walkIfaces(st, res, 0, func(iv IfaceV) {
+				if iv.Opq != nil {
+					u.ifBase[iv.Opq.S] = base
+					u.ifBound[iv.Opq.S] = st.wm
+				}
+			})
+			u.walkSlices(st, res, 0, func(s SliceV) {
+				u.assume(Lt(s.Blk, st.wm))
+				u.blkInfo[s.Blk.S] = blkMeta{base: base, epoch: epoch}
+			})
+			u.ctxBase = base
+			u.noNilMerge = true
+			for _, cl := range ct.Ensures {
+				cf := fn.Pkg.Func(cl.Func)
+				u.assume(u.evalPure(st, cf, all, nil).(*Term))
+			}
+			u.noNilMerge = false
+			u.ctxBase = nil
+			u.curFn = u.curFn[:len(u.curFn)-1]
+			k(st, res)
+		}
+	}
+	run(func(st2 *State, r Val) {
 		if st2.dead {
 			return
 		}
@@ -261,6 +311,28 @@ func VerifyFunc(p *Program, fn *ssa.Function, cfg Config, opt Options) (res *Uni
 			}
 			u.curFn = u.curFn[:len(u.curFn)-1]
 		}
+		if opt.ZeroRecv {
+			// verification of a zero value never reports success
+			switch fn.Name() {
+			case "Verify", "VerifySignature":
+				res := fn.Signature.Results()
+				var vals []Val
+				if tv, ok := r.(TupleV); ok {
+					vals = tv.E
+				} else if r != nil {
+					vals = []Val{r}
+				}
+				for i := 0; i < res.Len() && i < len(vals); i++ {
+					u.curFn = append(u.curFn, fn)
+					if iv, ok := vals[i].(IfaceV); ok && types.Identical(res.At(i).Type(), types.Universe.Lookup("error").Type()) {
+						u.check(st2, fmt.Sprintf("%s#zero:verification of the zero value fails", FuncName(fn)), "zero", Not(iv.Nil), "zero value never verifies")
+					} else if bv, ok := vals[i].(*Term); ok && bv.Sort == SBool && res.Len() <= 2 && i == 0 {
+						u.check(st2, fmt.Sprintf("%s#zero:verification of the zero value fails", FuncName(fn)), "zero", Not(bv), "zero value never verifies")
+					}
+					u.curFn = u.curFn[:len(u.curFn)-1]
+				}
+			}
+		}
 		if opt.NoAlias {
 			u.curFn = append(u.curFn, fn)
 			u.checkNoAlias(st2, fn, r)
@@ -268,6 +340,9 @@ func VerifyFunc(p *Program, fn *ssa.Function, cfg Config, opt Options) (res *Uni
 		}
 		if opt.ExtraPost != nil {
 			opt.ExtraPost(u, st2, params, r)
+		}
+		if opt.MethodsOnSuccess || opt.MethodsOnError {
+			u.methodsAfter(st2, fn, r, opt)
 		}
 	})
 	return res
@@ -327,4 +402,206 @@ func (r *UnitResult) Summary() string {
 
 func sortObls(os []*Obligation) {
 	sort.Slice(os, func(i, j int) bool { return os[i].Name < os[j].Name })
+}
+
+// plainParam: a parameter an attacker / caller controls as data: bytes,
+// strings, integers, booleans, byte arrays.
+func plainParam(t types.Type) bool {
+	switch x := t.Underlying().(type) {
+	case *types.Basic:
+		return x.Info()&(types.IsInteger|types.IsBoolean|types.IsString) != 0
+	case *types.Slice:
+		return isByte(x.Elem())
+	case *types.Array:
+		return isByte(x.Elem())
+	}
+	return false
+}
+
+func hasByteParam(fn *ssa.Function) bool {
+	for _, p := range fn.Params {
+		switch x := p.Type().Underlying().(type) {
+		case *types.Slice:
+			if isByte(x.Elem()) {
+				return true
+			}
+		case *types.Basic:
+			if x.Info()&types.IsString != 0 {
+				return true
+			}
+		case *types.Array:
+			if isByte(x.Elem()) {
+				return true
+			}
+		}
+	}
+	return false
+}
+
+// EntryPoints: the exported package-level functions that consume bytes,
+// strings or type/size codes (C04's "parsers and decoders").
+func (p *Program) EntryPoints() []*ssa.Function {
+	var out []*ssa.Function
+	for _, fn := range p.AllRepoFuncs() {
+		if !Exported(fn) || fn.Signature.Recv() != nil || len(fn.Params) == 0 {
+			continue
+		}
+		ok := true
+		for _, prm := range fn.Params {
+			if !plainParam(prm.Type()) {
+				ok = false
+			}
+		}
+		if !ok {
+			continue
+		}
+		if !hasByteParam(fn) {
+			// integers only: a size/type lookup unless it builds a buffer
+			res := fn.Signature.Results()
+			for i := 0; i < res.Len(); i++ {
+				if _, isSlice := res.At(i).Type().Underlying().(*types.Slice); isSlice {
+					ok = false
+				}
+			}
+		}
+		if ok {
+			out = append(out, fn)
+		}
+	}
+	return out
+}
+
+// exportedMethods of the (named) type of a parser's first result.
+func (p *Program) exportedMethods(t types.Type) []*ssa.Function {
+	var out []*ssa.Function
+	seen := map[string]bool{}
+	add := func(T types.Type) {
+		ms := p.Prog.MethodSets.MethodSet(T)
+		for i := 0; i < ms.Len(); i++ {
+			sel := ms.At(i)
+			if !sel.Obj().Exported() || seen[sel.Obj().Name()] {
+				continue
+			}
+			fn := p.Prog.MethodValue(sel)
+			if fn == nil {
+				continue
+			}
+			seen[sel.Obj().Name()] = true
+			out = append(out, fn)
+		}
+	}
+	if pt, ok := t.(*types.Pointer); ok {
+		add(pt)
+	} else {
+		add(types.NewPointer(t))
+	}
+	sort.Slice(out, func(i, j int) bool { return out[i].Name() < out[j].Name() })
+	return out
+}
+
+// runMethodsOn executes every exported method of recv's type on the symbolic
+// value recv (as it is on the current path); only safety obligations arise.
+func (u *Unit) runMethodsOn(st *State, recv Val, t types.Type, tag string) {
+	named := t
+	if pt, ok := t.(*types.Pointer); ok {
+		named = pt.Elem()
+	}
+	if _, ok := named.(*types.Named); !ok {
+		return
+	}
+	for _, m := range u.P.exportedMethods(t) {
+		sig := m.Signature
+		if u.argFreeOnly && sig.Params().Len() > 0 {
+			continue
+		}
+		okParams := true
+		for i := 0; i < sig.Params().Len(); i++ {
+			if !plainParam(sig.Params().At(i).Type()) {
+				okParams = false
+			}
+		}
+		if !okParams {
+			u.SkippedMethods[FuncName(m)] = true
+			continue
+		}
+		if u.overBudget() {
+			return
+		}
+		st2 := st.Clone()
+		// receiver in the form the method wants
+		var rv Val = recv
+		_, wantPtr := sig.Recv().Type().(*types.Pointer)
+		_, havePtr := t.(*types.Pointer)
+		switch {
+		case wantPtr && !havePtr:
+			c := u.newCell(t, false, false, "recv")
+			st2.cells[c.ID] = recv
+			rv = PtrV{Nil: TFalse, Cell: c, Elem: t}
+		case !wantPtr && havePtr:
+			pv, ok := recv.(PtrV)
+			if !ok || pv.Cell == nil {
+				continue
+			}
+			rv = u.loadPath(st2, pv)
+		}
+		args := []Val{rv}
+		for i := 0; i < sig.Params().Len(); i++ {
+			args = append(args, u.freshVal(st2, sig.Params().At(i).Type(), "marg", true))
+		}
+		u.MethodRuns[FuncName(m)+" "+tag]++
+		u.S.Push()
+		u.runFunc(st2, m, args, nil, 1, func(*State, Val) {})
+		u.S.Pop()
+	}
+}
+
+// methodsAfter: the parser has returned on this path; depending on whether it
+// returned an error, run the exported methods of the value it returned.
+func (u *Unit) methodsAfter(st *State, fn *ssa.Function, r Val, opt Options) {
+	res := fn.Signature.Results()
+	if res.Len() < 1 {
+		return
+	}
+	var vals []Val
+	switch x := r.(type) {
+	case TupleV:
+		vals = x.E
+	default:
+		vals = []Val{r}
+	}
+	errIdx := -1
+	for i := res.Len() - 1; i >= 0; i-- {
+		if types.Identical(res.At(i).Type(), types.Universe.Lookup("error").Type()) {
+			errIdx = i
+			break
+		}
+	}
+	t0 := res.At(0).Type()
+	if errIdx == 0 {
+		return
+	}
+	var isNil *Term = TTrue
+	if errIdx > 0 {
+		ev, ok := vals[errIdx].(IfaceV)
+		if !ok {
+			return
+		}
+		isNil = ev.Nil
+	} else if sl, ok := res.At(res.Len() - 1).Type().Underlying().(*types.Slice); ok && types.Identical(sl.Elem(), types.Universe.Lookup("error").Type()) {
+		// []error: success means an empty list
+		if sv, ok := vals[res.Len()-1].(SliceV); ok {
+			isNil = Eq(sv.Len, IntLit(0))
+		}
+	}
+	u.fork(st, isNil, func(st2 *State, success bool) {
+		if success && opt.MethodsOnSuccess {
+			u.argFreeOnly = false
+			u.runMethodsOn(st2, vals[0], t0, "after success")
+		}
+		if !success && opt.MethodsOnError {
+			u.argFreeOnly = true
+			u.runMethodsOn(st2, vals[0], t0, "after error")
+			u.argFreeOnly = false
+		}
+	})
 }
